@@ -1,14 +1,18 @@
 /-!
 # C05 — which names can be invoked through a method-request message
 
-Model of `qmi/core/rpc.py`:
+Model of `qmi/core/rpc.py` (repaired tree, commit b296ced):
 
 * `rpc_method` / `is_rpc_method`            → the `marked` flag of a member (runtime attribute `_rpc_method`)
 * `make_interface_descriptor`               → `advertised`, `construct` (protected names ⇒ `QMI_UsageException`)
-* `_RpcThread._check_and_get_method`        → `instLookup` (`hasattr`/`getattr` on the *instance*: data descriptors
-                                               first — a property getter is code that runs —, then the instance
-                                               `__dict__`, then the class members, then the `__getattr__` hook),
-                                               the marker read off the *result*; `invokable`, `effects`, `reply`.
+* `_RpcThread._check_and_get_method`        → `instLookup`: the name is resolved with `inspect.getattr_static(obj, name)`
+                                               — a class-level *data descriptor* (property, `__class__`) is returned as
+                                               the descriptor object itself, otherwise the instance `__dict__` entry,
+                                               otherwise the class member; no descriptor is evaluated and `__getattr__`
+                                               is never consulted —, a `staticmethod` is unwrapped and the result is
+                                               tested with `is_rpc_method` (plain function ∧ marker), the very test of
+                                               `make_interface_descriptor`; only then is the attribute bound by `getattr`
+                                               and called.  `invokable`, `effects`, `reply`.
 
 A class is its MRO: a list of member tables (`vars(K)` for every `K` in `type(obj).__mro__`, most derived first),
 plus the instance `__dict__` after construction.  Names are natural numbers: the injective encoding `encodeName`
@@ -37,16 +41,18 @@ inductive Kind where
   | staticfn (marked declared : Bool)
   /-- `classmethod` wrapping a plain function -/
   | classfn (marked declared : Bool)
-  /-- `property` (or another Python-level *data* descriptor): its getter is code that runs on instance lookup -/
+  /-- `property` (or another Python-level *data* descriptor): the static lookup yields the descriptor object, its
+  getter does not run -/
   | prop
-  /-- Python-level *non-data* descriptor (`functools.cached_property`): getter runs unless the instance dict shadows it -/
+  /-- Python-level *non-data* descriptor (`functools.cached_property`): the static lookup yields the descriptor
+  object unless the instance dict shadows it -/
   | ndprop
   /-- plain value / C-level descriptor: lookup runs no Python code, the result carries no marker -/
   | data
   /-- non-function class-level value that is not a descriptor (callable object, nested class, partial …) whose
   `_rpc_method` attribute has the given truthiness -/
   | callableObj (marked : Bool)
-  /-- `object.__class__`: yields `type(obj)`; the marker is then looked up on the class itself -/
+  /-- `object.__class__`: a C-level data descriptor; the static lookup yields the descriptor object -/
   | classRef
   deriving DecidableEq, Repr
 
@@ -55,12 +61,8 @@ abbrev Table := List (Name × Kind)
 structure RpcClass where
   /-- `[vars(K) for K in type(obj).__mro__]` -/
   mro : List Table
-  /-- instance `__dict__`: name ↦ "the value carries a truthy `_rpc_method`" -/
+  /-- instance `__dict__`: name ↦ "`is_rpc_method(value)`: the value is a plain function with a truthy `_rpc_method`" -/
   inst : List (Name × Bool) := []
-  /-- `bool(getattr(type(obj), "_rpc_method", False))` -/
-  classMarked : Bool := false
-  /-- some class in the MRO defines `__getattr__` -/
-  getattrHook : Bool := false
   deriving Repr
 
 def lookup {β : Type} : List (Name × β) → Name → Option β
@@ -128,41 +130,30 @@ def construct (C : RpcClass) : Except PyExc (List Name) :=
 /-! ## what `_check_and_get_method` does for a method-name string -/
 
 inductive Got where
-  | absent                  -- AttributeError, no Python code of the object ran
-  | hook                    -- `__getattr__` ran; outcome decided by that code
-  | getter                  -- a getter ran; outcome decided by that code
-  | value (marked : Bool)   -- lookup ran no code; `getattr(result, "_rpc_method", False)` has this truthiness
+  | absent                  -- `getattr_static` raises AttributeError: "does not have method …"
+  | value (marked : Bool)   -- static lookup found an object; `is_rpc_method(unwrap staticmethod)` has this value
   deriving DecidableEq, Repr
 
-/-- `getattr(obj, n)` = `object.__getattribute__` -/
+/-- `inspect.getattr_static(obj, n)`, then `staticmethod` unwrapping, then `is_rpc_method` -/
 def instLookup (C : RpcClass) (n : Name) : Got :=
   match resolve C.mro n with
-  | some .prop => .getter
+  | some .prop => .value false       -- data descriptor beats the instance dict; the property object is no function
+  | some .classRef => .value false   -- likewise (`__class__` getset descriptor)
   | r =>
     match lookup C.inst n with
     | some m => .value m
     | none =>
       match r with
-      | some (.func m _) => .value m          -- bound method: attribute access falls through to `__func__`
-      | some (.staticfn m _) => .value m      -- the function itself
-      | some (.classfn m _) => .value m       -- method bound to the class
-      | some (.callableObj m) => .value m
-      | some .data => .value false
-      | some .classRef => .value C.classMarked
-      | some .ndprop => .getter
-      | some .prop => .getter
-      | none => if C.getattrHook then .hook else .absent
+      | some k => .value (isRpcMember k)
+      | none => .absent
 
 inductive Effect where
-  | called (n : Name)        -- the resolved callable was called with the request's arguments
-  | getterRan (n : Name)     -- descriptor code ran during `hasattr`/`getattr`
-  | hookRan (n : Name)       -- `__getattr__` ran
+  | called (n : Name)        -- the attribute was bound with `getattr` and called with the request's arguments
   deriving DecidableEq, Repr
 
 inductive Reply where
   | unknownRpc               -- QMI_UnknownRpcException
   | methodResult             -- whatever the invoked method returned / raised
-  | getterDecides            -- whatever the getter / hook returned or raised (not necessarily unknown-RPC)
   deriving DecidableEq, Repr
 
 /-- the request passes `_check_and_get_method` and the result is called -/
@@ -171,21 +162,18 @@ def invokable (C : RpcClass) (n : Name) : Bool :=
   | .value true => true
   | _ => false
 
+/-- code of the object that runs while the request is handled: nothing at all unless the method is invoked -/
 def effects (C : RpcClass) (n : Name) : List Effect :=
   match instLookup C n with
   | .absent => []
   | .value false => []
   | .value true => [.called n]
-  | .getter => [.getterRan n]
-  | .hook => [.hookRan n]
 
 def reply (C : RpcClass) (n : Name) : Reply :=
   match instLookup C n with
   | .absent => .unknownRpc
   | .value false => .unknownRpc
   | .value true => .methodResult
-  | .getter => .getterDecides
-  | .hook => .getterDecides
 
 /-- the member that resolves for `n` was explicitly declared with `@rpc_method` in its class body -/
 def declared (C : RpcClass) (n : Name) : Bool :=
@@ -203,13 +191,10 @@ def nameOk (C : RpcClass) (n : Name) : Bool :=
   match instLookup C n with
   | .absent => true
   | .value m => (m == isAdvertised C n) && (!m || (declared C n && (lookup C.inst n).isNone))
-  | .getter => false
-  | .hook => false
 
 /-- well-formed except for the listed names -/
 def wfExceptB (C : RpcClass) (bad : List Name) : Bool :=
-  !C.getattrHook
-  && (allNames C).all (fun n => bad.contains n || nameOk C n)
+  (allNames C).all (fun n => bad.contains n || nameOk C n)
   && protectedNames.all (fun n => !isAdvertised C n)
 
 def WellFormedExcept (C : RpcClass) (bad : List Name) : Prop := wfExceptB C bad = true
@@ -227,18 +212,13 @@ def badNames (C : RpcClass) : List Name := dedup ((allNames C).filter (fun n => 
 
 /-! ## a syntactic sufficient condition (cheap to evaluate: one linear pass over the tables) -/
 
-/-- member kinds that can never break the property, whatever shadows what along the MRO: for these the class-level
-test of `make_interface_descriptor` and the instance-level test of `_check_and_get_method` read the same marker,
-and no code runs on lookup -/
+/-- member kinds that can never break the property, whatever shadows what along the MRO: the class-level test of
+`make_interface_descriptor` and the static test of `_check_and_get_method` are the same function of the kind, so the
+only thing left to demand is that a marked function was declared with `@rpc_method` -/
 def cleanKind : Kind → Bool
   | .func m d => !m || d
   | .staticfn m d => !m || d
-  | .classfn m _ => !m
-  | .prop => false
-  | .ndprop => false
-  | .data => true
-  | .callableObj m => !m
-  | .classRef => true
+  | _ => true
 
 def tableCleanExcept (bad : List Name) : Table → Bool
   | [] => true
@@ -252,10 +232,10 @@ def instCleanExcept (C : RpcClass) (bad : List Name) : List (Name × Bool) → B
   | [] => true
   | (n, m) :: r => (bad.contains n || (!m && !isAdvertised C n)) && instCleanExcept C bad r
 
-/-- no hook, class not marked, every member of every table clean (or excepted), instance attributes unmarked and not
-shadowing an advertised method, no protected name advertised -/
+/-- every member of every table clean (or excepted), instance attributes not marked functions and not shadowing an
+advertised method, no protected name advertised -/
 def synWfB (C : RpcClass) (bad : List Name) : Bool :=
-  !C.getattrHook && !C.classMarked && tablesCleanExcept bad C.mro && instCleanExcept C bad C.inst
+  tablesCleanExcept bad C.mro && instCleanExcept C bad C.inst
   && protectedNames.all (fun n => !isAdvertised C n)
 
 /-! ## the statement of the property at one name -/
